@@ -15,6 +15,7 @@ import (
 	"math/rand"
 	"net"
 	"strconv"
+	"strings"
 	"sync"
 	"time"
 
@@ -34,7 +35,9 @@ func init() { drivers["c02t"] = driveC02T }
 type c02tScn struct {
 	// live_play_tcp | live_play_udp | live_record_tcp | live_record_udp | silent_play_udp |
 	// silent_record_udp | control_only_play_udp | slow_record_udp (RECORD comes more than a read
-	// timeout after ANNOUNCE, media one check period later) | repause_record_udp (RECORD, PAUSE, a
+	// timeout after ANNOUNCE, media one check period later) | control_options_play_udp (as
+	// control_only, with OPTIONS) | reconnect_options_play_udp / reconnect_getparam_play_udp (the
+	// control connection is closed after PLAY; keep-alives come from a new connection) | repause_record_udp (RECORD, PAUSE, a
 	// pause longer than the read timeout, RECORD, media one check period later) |
 	// sparse_play_tcp / sparse_record_tcp (a raw peer over TCP whose signs of life - receiver
 	// reports / media - are separated by the gaps of a schedule generated from
@@ -59,6 +62,7 @@ func driveC02T(a *args, s *vt.Sink) error {
 	} else {
 		kinds := []string{"live_play_tcp", "live_play_udp", "live_record_tcp", "live_record_udp",
 			"silent_play_udp", "silent_record_udp", "control_only_play_udp",
+			"control_options_play_udp", "reconnect_options_play_udp", "reconnect_getparam_play_udp",
 			"slow_record_udp", "repause_record_udp", "silent_play_tcp", "silent_play_tunnel"}
 		grid := [][3]int{{3000, 2000, 200}}
 		if a.tier == "thorough" {
@@ -186,7 +190,8 @@ func c02tRun(sc *c02tScn, s *vt.Sink) error {
 			}
 		}
 		tr.Emit("live", "kind", sc.Kind, "ms", int(time.Since(t0).Milliseconds()), "expired", expired)
-	case "silent_play_udp", "silent_record_udp", "control_only_play_udp", "slow_record_udp", "repause_record_udp":
+	case "silent_play_udp", "silent_record_udp", "control_only_play_udp", "slow_record_udp", "repause_record_udp",
+		"control_options_play_udp", "reconnect_options_play_udp", "reconnect_getparam_play_udp":
 		peer, err := bd.Dial()
 		if err != nil {
 			return err
@@ -311,11 +316,27 @@ func c02tRun(sc *c02tScn, s *vt.Sink) error {
 			timeout = sc.IdleMs // PLAY over UDP: neither requests nor RTCP for IdleTimeout
 		}
 		t0 := time.Now()
-		if sc.Kind == "control_only_play_udp" {
+		if strings.HasPrefix(sc.Kind, "reconnect_") {
+			// the control connection goes away (a session streaming over UDP survives that) and the
+			// peer comes back on a new one, from which it keeps the session alive
+			peer.Close()
+			p2, err := bd.Dial()
+			if err != nil {
+				return err
+			}
+			defer p2.Close()
+			p2.Timeout = 3 * time.Second
+			peer = p2
+		}
+		if sc.Kind == "control_only_play_udp" || strings.HasPrefix(sc.Kind, "control_options") || strings.HasPrefix(sc.Kind, "reconnect_") {
 			// silent on the media path, alive on the control path: keep-alive requests alone keep it alive
+			method := base.GetParameter
+			if strings.Contains(sc.Kind, "_options_") {
+				method = base.Options
+			}
 			expired := false
 			for time.Since(t0) < obs && !expired {
-				if err := do(&base.Request{Method: base.GetParameter, URL: bed.MustURL(url)}); err != nil {
+				if err := do(&base.Request{Method: method, URL: bed.MustURL(url)}); err != nil {
 					expired = true
 					break
 				}
